@@ -17,6 +17,7 @@ import (
 	"math/rand"
 	"os"
 	"path/filepath"
+	"strconv"
 	"strings"
 	"sync"
 
@@ -259,6 +260,20 @@ type scen struct {
 	cfg  tl.Cfg
 	sd   int64
 	full bool // long consecutive run from n = 0
+	ll   bool // low-latency (chunked) delivery: ato_ + chunkdur_
+}
+
+// sampleSeq is a digest of the decode time of the first sample and of (duration, size, payload digest) of every sample
+// of all fragments of a body in order: two delivery variants of one segment are equal sample by sample iff it is equal.
+func sampleSeq(m *project.Media) string {
+	var b strings.Builder
+	fmt.Fprintf(&b, "%d|", m.Frags[0].Tfdt)
+	for _, fr := range m.Frags {
+		for x := range fr.Durs {
+			fmt.Fprintf(&b, "%d:%d:%s,", fr.Durs[x], fr.Sizes[x], fr.Digests[x])
+		}
+	}
+	return project.Digest([]byte(b.String()))
 }
 
 func Main(args []string) error {
@@ -348,10 +363,40 @@ func Main(args []string) error {
 		for ci, c := range cfgs {
 			scens = append(scens, scen{a: a, k: k, cfg: c, sd: rng.Int63(), full: ci < 3})
 		}
+		// low-latency (chunked) delivery of the same audio segments: availabilityTimeOffset = a fraction of the shortest
+		// reference segment, chunk duration = the rest of it; all addressing modes
+		minMS := a.Video.Dur[0] * 1000 / a.Video.TS
+		for _, d := range a.Video.Dur {
+			if ms := d * 1000 / a.Video.TS; ms < minMS {
+				minMS = ms
+			}
+		}
+		fracs := [][2]int64{{1, 4}, {1, 2}, {3, 4}, {7, 8}, {1, 8}}
+		for mi, mode := range []string{"number", "time", "tlnr"} {
+			var sel [][2]int64
+			if *thorough {
+				sel = fracs
+			} else {
+				sel = [][2]int64{fracs[(ai+mi+int(*seed))%len(fracs)]}
+			}
+			for fi, f := range sel {
+				ato := minMS * f[0] / f[1]
+				if ato <= 0 || minMS-ato <= 0 {
+					continue
+				}
+				c := tl.Cfg{Mode: mode, SNR: -1, TSBD: -1, AtoMS: ato,
+					Extra: []string{"chunkdur_" + strconv.FormatFloat(float64(minMS-ato)/1000, 'f', -1, 64)}}
+				if (fi+mi)%2 == 1 {
+					c.SNR = 1 + rng.Intn(9)
+				}
+				scens = append(scens, scen{a: a, k: k, cfg: c, sd: rng.Int63(), ll: true})
+			}
+		}
 	}
 
 	var mu sync.Mutex
 	nreq, nseg, nframes, nmpd, nmpdEntries := 0, 0, 0, 0, 0
+	nll, nllMulti, nllFrags := 0, 0, 0
 	distinct := map[string]bool{}
 	var firstErr error
 	tl.RunParallel(w, len(scens), 8, func(idx int, emit func(tr.E)) {
@@ -360,7 +405,7 @@ func Main(args []string) error {
 		rng := rand.New(rand.NewSource(s.sd))
 		N := int64(v.N)
 		emit(tl.HeaderE(idx, a, v, c, tr.E{"rep": au.ID, "kind": "audio", "vrep": v.ID, "F": k.F, "TSa": k.TSa, "A": k.A, "ra": k.RA, "rv": k.RV,
-			"M": k.M, "PA": k.PA, "vcls": k.VCls, "asegs": k.SegFrames}))
+			"M": k.M, "PA": k.PA, "vcls": k.VCls, "asegs": k.SegFrames, "ll": s.ll}))
 		// runs of consecutive indices
 		type run struct{ from, to int64 }
 		var runs []run
@@ -372,6 +417,11 @@ func Main(args []string) error {
 			loops = 2
 		}
 		if s.full || *thorough {
+			runs = append(runs, run{0, loops*N + 1})
+		} else if s.ll {
+			if loops > 3 {
+				loops = 3
+			}
 			runs = append(runs, run{0, loops*N + 1})
 		} else {
 			runs = append(runs, run{0, N + 1})
@@ -407,6 +457,11 @@ func Main(args []string) error {
 					slack = 0
 				}
 				now := c.AST*1000 + availMS(v, n) + slack
+				if s.ll {
+					// every chunk must be over at the instant of the request (the last audio chunk ends less than one frame
+					// after the reference segment): nothing is delivered in real time
+					now += 200
+				}
 				var url string
 				if c.Mode == "time" {
 					url = c.Prefix(a.Name) + "/" + strings.ReplaceAll(strings.ReplaceAll(au.MediaPat, "$Number$", fmt.Sprint(aStartInput(v, k, n))), "$Time$", fmt.Sprint(aStartInput(v, k, n)))
@@ -414,7 +469,8 @@ func Main(args []string) error {
 					url = c.Prefix(a.Name) + "/" + strings.ReplaceAll(strings.ReplaceAll(au.MediaPat, "$Number$", fmt.Sprint(n+c.EffSNR())), "$Time$", fmt.Sprint(n+c.EffSNR()))
 				}
 				resp := env.S.Get(url + "?nowMS=" + fmt.Sprint(now))
-				e := tr.E{"ev": "seg", "k": n / N, "i": n % N, "st": resp.Status, "run": prevOK, "url": url, "now": fmt.Sprint(now)}
+				e := tr.E{"ev": "seg", "k": n / N, "i": n % N, "st": resp.Status, "run": prevOK, "url": url, "now": fmt.Sprint(now),
+					"sdig": "", "wdig": "", "wst": 0}
 				prevOK = false
 				if resp.Status == 200 {
 					m, err := project.ParseMedia(resp.Body, au.Trex)
@@ -454,6 +510,28 @@ func Main(args []string) error {
 						nseg++
 						nframes += m.NSamp
 						mu.Unlock()
+						if s.ll {
+							// the same segment delivered whole (same configuration without ato_/chunkdur_) at the same instant
+							cw := c
+							cw.AtoMS, cw.Extra = 0, nil
+							wurl := cw.Prefix(a.Name) + url[len(c.Prefix(a.Name)):]
+							wr := env.S.Get(wurl + "?nowMS=" + fmt.Sprint(now))
+							e["sdig"], e["wst"], e["wurl"] = sampleSeq(m), wr.Status, wurl
+							if wr.Status == 200 {
+								if wm, err := project.ParseMedia(wr.Body, au.Trex); err == nil {
+									e["wdig"] = sampleSeq(wm)
+								} else {
+									e["wst"] = -200
+								}
+							}
+							mu.Lock()
+							nll++
+							nllFrags += len(m.Frags)
+							if len(m.Frags) > 1 {
+								nllMulti++
+							}
+							mu.Unlock()
+						}
 					}
 				} else if len(resp.Body) < 200 {
 					e["body"] = strings.TrimSpace(string(resp.Body))
@@ -474,7 +552,7 @@ func Main(args []string) error {
 				emit(e)
 				mu.Lock()
 				nreq++
-				distinct[fmt.Sprintf("%s|%s|%d|%d", a.Name, c.Mode, c.EffSNR(), n)] = true
+				distinct[fmt.Sprintf("%s|%s|%d|%d|%v|%d", a.Name, c.Mode, c.EffSNR(), n, s.ll, c.AtoMS)] = true
 				mu.Unlock()
 
 				// the MPD at the same instant (SegmentTimeline modes)
@@ -539,6 +617,6 @@ func Main(args []string) error {
 		return err
 	}
 	tr.PrintStats(map[string]any{"scenarios": len(scens), "events": w.N, "requests": nreq, "distinct": len(distinct), "samples": samples,
-		"segments_served": nseg, "frames": nframes, "mpds": nmpd, "mpd_audio_entries": nmpdEntries, "assets": len(assets)})
+		"segments_served": nseg, "frames": nframes, "ll_segments": nll, "ll_multi_fragment": nllMulti, "ll_fragments": nllFrags, "mpds": nmpd, "mpd_audio_entries": nmpdEntries, "assets": len(assets)})
 	return nil
 }
